@@ -877,6 +877,11 @@ class KafkaClient(object):
                 self.reset_consumer_group_metadata(consumer_group)
                 if fail_on_error:
                     raise
+            except BrokerResponseError:
+                # Any other error code: the caller asked (fail_on_error=False) to receive
+                # every response so that it can tell acknowledged payloads from failed ones.
+                if fail_on_error:
+                    raise
 
             if callback is not None:
                 out.append(callback(resp))
